@@ -95,6 +95,28 @@ _c("C32", "metamorphic + reference-implementation oracle over generated traces",
    "field edits, drops, swaps, duplicates make it unequal; independent reference of the stripped lines.",
    "Names contain no line-boundary characters; both texts keep the multi-line shape of trace().")
 
+_SCHED = ("Trusts the virtual primitives of harness/detsched.py (threads, events, queues, locks, clock) as "
+          "faithful stand-ins; pre-emption at source-line granularity explores a subset of the bytecode-level "
+          "interleavings; sampling, not exhaustive.")
+_c("C04", "schedule fuzzing under a deterministic scheduler + linearizability check of the deque history",
+   "Exploration: generated schedules (thread pick, run length) x generated posting scenarios; multiset equality, "
+   "exhaustive linearizability search per run, no lost wake-up, non-overlapping RTC steps.", _SCHED)
+_c("C05", "schedule fuzzing with exact deadlock detection and a step bound under a fair round-robin suffix",
+   "Exploration: posting scenarios incl. queues pre-filled to the token-queue bound; deadlock and non-termination "
+   "(step bound >100x the longest passing run) are failures.", _SCHED + " Liveness is decided only up to the step bound.")
+_c("C06", "model-based testing of the fabric (subscribe/publish/settle histories) under generated schedules",
+   "Exploration: identity-keyed registry model; exact delivery counts at settle points, 0..1 for publications "
+   "overlapping a subscription.", _SCHED)
+_c("C07", "scripted configurations (decorated or not x before/after start x inside/outside a handler x prior subscribers) under generated schedules",
+   "Exploration: generated scripts over 1-3 active objects; publications after a subscription took effect must be "
+   "dispatched exactly once per kind.", _SCHED)
+_c("C08", "schedule fuzzing with lagging delivery threads; order oracle sound under any lag",
+   "Exploration: generated bursts of (signal, priority) publications; equal-priority publish order and priority "
+   "order rules that hold however far the delivery threads lag.", _SCHED)
+_c("C09", "model deque oracle with the consumer parked behind a gate",
+   "Exploration: generated mixes of posts and fifo/lifo-subscribed publications placed while the object's thread "
+   "is parked; dispatch order after the gate equals the model deque.", _SCHED)
+
 NOT_APPLICABLE = {}
 for _e in ENGINES:
   _e["serves_properties"] = sorted(CLAIMED)
